@@ -52,7 +52,7 @@ def run(pid, tier, ev=None, vd=None, finish=True):
             rng.shuffle(scheds)
             for sc in scheds[:(per_prog if prog != "casrace3" else 4000)]:
                 jobs.append({"prog": prog, "program": hr.PROGRAMS[prog], "order": [x[0] for x in sc["hist"]],
-                             "want_final": sc["final"], "src": "tlc"})
+                             "labels": sc["hist"], "want_final": sc["final"], "src": "tlc"})
             log(f"[{pid}] program {prog}: {len(scheds)} model behaviours, {min(len(scheds), per_prog)} replayed")
         # kills from the model
         r = tlc("HubSched", "MC_HubSched_putput_kill.cfg", workers=8, timeout=1500, xmx="8g")
